@@ -32,6 +32,15 @@ rule) GaussianSimulator.  Four families of sub-explorations:
          detected) pair, each with its own state), followed by gates on the remaining modes (conditions and parameters
          depending on the REPORTED outcome) and further (perfect or imperfect) measurements; reference = the classical
          detector channel of mc/refmodel/projref.py; the detector draws (Config.rng.choice) are choice points.
+  fbox   fermionic PureFockSimulator on d = 4 (quick) / 4 and 5 (thorough) modes, shots=None -- the smallest box in which the
+         Jordan-Wigner sign of the post-measurement projection acts as a RELATIVE sign inside a branch state (a measured
+         mode that is not the lowest one found empty, >= 2 fermions): roots = every 2-fermion number state and one
+         3-fermion number state, a generic Interferometer on all modes, ParticleNumberMeasurement on every single mode and
+         every ordered pair of modes: weights and branch states (one global sign per branch) vs the reference tree; then
+         one further passive gate on EVERY window of the remaining modes that is consecutive after the remapping
+         (Beamsplitter on 2, Interferometer on 3) and a measurement of every single remaining mode: joint law and final
+         branch states vs the reference, and vs the implementation's own program with the gate applied BEFORE the first
+         measurement (whenever the window is also consecutive among all modes).
 """
 
 import contextlib
@@ -121,6 +130,11 @@ def has_ipnm(case):
 def initial_terms(simkind, init, d):
     """[(coefficient, occupation)] of a pure state, or [(probability, [(coefficient, occupation)])] for "mix" """
     z = (0,) * (d - 2)
+    if init[:1] == "o" and init[1:].isdigit():  # explicit number state, e.g. "o0101"
+        occ = tuple(int(c) for c in init[1:])
+        if len(occ) != d:
+            raise KeyError(init)
+        return [(1.0, occ)]
     if init == "n11":
         return [(1.0, (1, 1) + z)]
     if init in ("n1", "f1"):
@@ -187,8 +201,16 @@ def build_sim(case):
     return cls(d=case["d"], config=cfg)
 
 
-def _lib_gate(pq, op):
+def _resolve_params(op):
+    """static parameters of a gate op; an Interferometer is stored as the catalogue index of its generic unitary"""
     params = dict(op["params"])
+    if op["cls"] == "Interferometer" and "useed" in params:
+        params = {"matrix": generic_unitary(len(op["modes"]), params["useed"])}
+    return params
+
+
+def _lib_gate(pq, op):
+    params = _resolve_params(op)
     if op.get("dyn"):
         name, key = op["dyn"]
         params[name] = DYN[key]
@@ -269,7 +291,7 @@ def ref_ops(case):
         if op["k"] != "gate":
             ops.append(op)
             continue
-        static = dict(op["params"])
+        static = _resolve_params(op)
         dyn = op.get("dyn")
         cond = op.get("cond")
 
@@ -570,6 +592,11 @@ def _unsupported(e):
 
 def check_tree(case, stats):
     """one program, shots=None"""
+    return _check_tree_obs(case, stats)[0]
+
+
+def _check_tree_obs(case, stats):
+    """-> (verdicts, observation of the Result or None)"""
     import piquasso as pq
     from mc.refmodel import projref as R
 
@@ -585,14 +612,90 @@ def check_tree(case, stats):
         u = _unsupported(e)
         if u:
             stats["unsupported_" + u] = stats.get("unsupported_" + u, 0) + 1
-            return verdicts
+            return verdicts, None
         verdicts.append((sig(case, "exception", exception=type(e).__name__), "shots=None raised %s: %s" % (type(e).__name__, str(e)[:300])))
-        return verdicts
+        return verdicts, None
     leaves = R.run_tree(ref_initial(case), ref_ops(case))
     if has_ipnm(case):
         verdicts.extend(_compare_tree_pairs(case, obs, leaves, stats))
     else:
         verdicts.extend(_compare_tree(case, obs, leaves, stats))
+    return verdicts, obs
+
+
+# ---------------------------------------------------------------------------------------
+# family "fbox": fermionic projection sign box (shots=None)
+
+
+def fbox_roots(d):
+    """every 2-fermion number state on d modes and one 3-fermion number state"""
+    roots = ["o" + "".join("1" if m in pair else "0" for m in range(d)) for pair in itertools.combinations(range(d), 2)]
+    roots.append("o" + "".join("0" if m == 1 else "1" for m in range(4)) + "0" * (d - 4))
+    return roots
+
+
+def fbox_first_measurements(d):
+    return [(m,) for m in range(d)] + list(itertools.permutations(range(d), 2))
+
+
+def fbox_followups(d, S, seed):
+    """[(gate op, second measured mode)]: one passive gate on every window of the remaining modes that is consecutive
+    AFTER the remapping (Beamsplitter on 2 modes, Interferometer on 3), then a measurement of every single remaining mode"""
+    rest = [m for m in range(d) if m not in S]
+    out = []
+    n = 0
+    for width in (2, 3):
+        for j in range(len(rest) - width + 1):
+            W = rest[j:j + width]
+            if width == 2:
+                th, ph = angles(seed, n)
+                g = {"k": "gate", "cls": "Beamsplitter", "modes": W, "params": {"theta": th, "phi": ph}}
+            else:
+                g = {"k": "gate", "cls": "Interferometer", "modes": W, "params": {"useed": seed + 3 + j}}
+            n += 1
+            for m in rest:
+                out.append((g, m))
+    return out
+
+
+def check_fbox(case, stats):
+    """case["ops"] = [PNM(S)] or [PNM(S), gate(W), PNM(m)] (W among the remaining modes).  The program is compared with
+    the reference tree; the three-op program also with the implementation's own [gate(W), PNM(S), PNM(m)] when W is a
+    window of consecutive modes of the full register (the fermionic simulator demands consecutive modes)."""
+    ops = case["ops"]
+    tree_case = dict(case, fam="tree")
+    verdicts, obs = _check_tree_obs(tree_case, stats)
+    stats["fbox_programs"] = stats.get("fbox_programs", 0) + 1
+    if len(ops) != 3:
+        return verdicts
+    W = list(ops[1]["modes"])
+    if W != list(range(W[0], W[0] + len(W))):
+        stats["fbox_window_not_consecutive_before_measurement"] = stats.get("fbox_window_not_consecutive_before_measurement", 0) + 1
+        return verdicts
+    before_case = dict(tree_case, ops=[ops[1], ops[0], ops[2]])
+    v2, obs2 = _check_tree_obs(before_case, stats)
+    stats["fbox_gate_order_pairs"] = stats.get("fbox_gate_order_pairs", 0) + 1
+    have = {json.dumps(s, sort_keys=True) for s, _ in verdicts}
+    verdicts.extend((s, "[gate applied before the first measurement] " + m) for s, m in v2 if json.dumps(s, sort_keys=True) not in have)
+    if obs is not None and obs2 is not None:
+        wa = _aggregate((b["outcome"], float(b["freq"])) for b in obs["branches"])
+        wb = _aggregate((b["outcome"], float(b["freq"])) for b in obs2["branches"])
+        worst, wk = 0.0, None
+        for k in set(wa) | set(wb):
+            if (k not in wa or k not in wb) and max(wa.get(k, 0.0), wb.get(k, 0.0)) <= DROP:
+                continue  # an outcome below the drop threshold may be absent on either side
+            e = abs(wa.get(k, 0.0) - wb.get(k, 0.0))
+            if e > worst:
+                worst, wk = e, k
+        if worst > 2 * TOL:
+            verdicts.append(
+                (
+                    sig(tree_case, "gate_order"),
+                    "measuring %s, then %s on %s, then measuring %s gives %s; applying the gate (disjoint from the measured modes) "
+                    "BEFORE the first measurement gives %s (differ by %.3g at %s)"
+                    % (ops[0]["modes"], ops[1]["cls"], W, ops[2]["modes"], _fmt_map(wa, 12), _fmt_map(wb, 12), worst, wk),
+                )
+            )
     return verdicts
 
 
@@ -1505,6 +1608,8 @@ def check_case(case, stats, cache=None):
     fam = case["fam"]
     if fam == "tree":
         return check_tree(case, stats), None
+    if fam == "fbox":
+        return check_fbox(case, stats), None
     if fam == "part":
         return check_part(case, stats, cache), None
     if fam == "shots":
@@ -1589,6 +1694,7 @@ def _bounds(tier):
             inits={"pure": ("n11", "sup"), "fock": ("mix",), "passive": ("n11", "n2"), "fermi": ("f11", "fsup")},
             shots_inits={"pure": ("n11",), "fock": ("mix",), "passive": ("n11",), "fermi": ("fsup",)},
             budget={2: 120, 3: 24},
+            fbox={4: 1},  # d: number of chunks per root
             # programs around an ImperfectParticleNumberMeasurement, per number of modes; N: {shots: (largest width of an
             # imperfect measurement, largest number of ops behind the first measurement)}
             itree={
@@ -1613,6 +1719,7 @@ def _bounds(tier):
         inits_d4={"pure": ("n11", "sup"), "fock": ("mix",), "passive": ("n11", "n2"), "fermi": ("f11", "fsup")},
         shots_inits={"pure": ("n11", "sup"), "fock": ("mix",), "passive": ("n11", "n2"), "fermi": ("fsup", "fnum")},
         budget={2: 400, 3: 60},
+        fbox={4: 1, 5: 5},
         itree={
             2: dict(depth=3, max_meas=2, max_gates=2, pre_gate=True, letters=GATE_LETTERS, inits={"pure": ("n1",), "fock": ("n1",), "passive": ("n11", "n2", "n21")}),
             3: dict(depth=3, max_meas=2, max_gates=2, pre_gate=True, letters=GATE_LETTERS, inits={"pure": ("n1",), "fock": ("n1",), "passive": ("n11", "n2")}),
@@ -1660,6 +1767,10 @@ def _items(tier):
                 for ch in range(n):
                     items.append(("shots", simkind, d, init, ch, n))
     items.append(("gauss", "gauss", 0, "", 0, 1))
+    for d, n in sorted(b["fbox"].items()):
+        for init in fbox_roots(d):
+            for ch in range(n):
+                items.append(("fbox", "fermi", d, init, ch, n))
     for fam in ("itree", "ishots"):
         for simkind in ("passive", "pure", "fock"):
             for d in sorted(b[fam]):
@@ -1674,7 +1785,7 @@ def _items(tier):
         for ch in range(n):
             items.append(("budget", simkind, 3, "f1" if simkind == "fermi" else "n1", ch, n))
     # heavy items first (the pool takes them in order): shots at d = 3, then trees
-    order = {"shots": 0, "tree": 1, "part": 2, "gauss": 2, "budget": 1, "itree": 1, "ishots": 0}
+    order = {"shots": 0, "tree": 1, "part": 2, "gauss": 2, "budget": 1, "itree": 1, "ishots": 0, "fbox": 1}
     items.sort(key=lambda it: (order[it[0]], -it[2]))
     return items
 
@@ -1697,7 +1808,11 @@ def run(ctx, builddir):
         "[PNM(S), [gate]] IPNM(T)); with shots=N every multiset of actual outcomes and every sequence (one measured mode: multiset) of "
         "detector draws.  budget: every lattice point (N, k) 1 <= N <= Nmax, 0 <= k <= N (two measurement levels) and (N, k1, k2), "
         "k2 <= k1 <= N (three levels), ONE forced execution each (no other multiset is enumerated there). "
-        "A case is one program (tree, part), one (program, N) with all of its random paths (shots) or one lattice point (budget); "
+        "fbox: fermionic, d = 4 (thorough: and 5): every 2-fermion and one 3-fermion number state, generic Interferometer, PNM on every "
+        "single mode and every ordered pair, alone and followed by (Beamsplitter | Interferometer on every window of the remaining "
+        "modes) + PNM of every single remaining mode; each also with the gate moved before the first measurement when its window "
+        "is consecutive in the full register. "
+        "A case is one program (tree, part, fbox), one (program, N) with all of its random paths (shots) or one lattice point (budget); "
         "distinct = distinct serialised case (budget: lattice points with N <= 6 only are registered); "
         "non-trivial = contains at least one measurement whose outcome is not deterministic."
     )
@@ -1790,6 +1905,19 @@ def work(ctx, item):
                 run_case(ctx, case)
                 ctx.note_distinct(case)
                 if i < 1 and N == 2:
+                    ctx.sample(case)
+        return
+    if fam == "fbox":
+        for i, S in enumerate(fbox_first_measurements(d)):
+            if i % nchunk != ch:
+                continue
+            first = {"k": "pnm", "modes": list(S)}
+            progs = [[first]] + [[first, g, {"k": "pnm", "modes": [m]}] for g, m in fbox_followups(d, S, seed)]
+            for j, ops in enumerate(progs):
+                case = dict(base, fam="fbox", ops=ops)
+                run_case(ctx, case)
+                ctx.note_distinct(case)
+                if i == 1 and j == 1:
                     ctx.sample(case)
         return
     if fam == "tree":
